@@ -191,10 +191,13 @@ def run_pass(ctx, runs):
         body = HEADER
         for k, c in enumerate(cases[j:j + PER_FILE]):
             body += f"Definition fin{k} : flatprog := {c['fin']}.\nDefinition fout{k} : flatprog := {c['fout']}.\n"
-            body += f"Eval vm_compute in [constants_matches fin{k} fout{k}; constants_ok fin{k}; constants_in_model fin{k}].\n"
+            body += (f"Eval vm_compute in [constants_matches_gen RCur fin{k} fout{k}; constants_ok_gen RCur fin{k}; "
+                     f"constants_in_model_gen RCur fin{k}; constants_matches_gen RFix fin{k} fout{k}; constants_ok_gen RFix fin{k}; "
+                     f"constants_in_model_gen RFix fin{k}].\n")
         files.append((f"pconst_{j // PER_FILE}", body))
     outs = lib.coq_run_many(ctx, files, timeout=300)
     import re
+    rows = []
     for j in range(0, len(cases), PER_FILE):
         okc, o = outs[f"pconst_{j // PER_FILE}"]
         lists = re.findall(r"=\s*\[(.*?)\]\s*:\s*list bool", o, re.S) if okc else []
@@ -205,35 +208,44 @@ def run_pass(ctx, runs):
                           "the ConstantsTransformer model could not be evaluated inside Coq on Polar's snapshots", no_input=True)
             continue
         for c, l in zip(chunk, lists):
-            bl = [x.strip() == "true" for x in l.split(";")]
-            st["instances"] += 1
-            if not bl[2]:
-                # a default variable is itself a folded constant: Polar's output is not a flat program of the model
-                st["outside_model_default_substituted"] = st.get("outside_model_default_substituted", 0) + 1
-                if not bl[1]:
-                    st["hypothesis_false"] += 1
-                continue
-            ctx.coverage["obligations"] += 1
-            ctx.count({"pass": "ConstantsTransformer", "t": c["text"]}, nontrivial=c["folds"])
-            if c["folds"]:
-                st["something_folded"] += 1
-            if bl[1]:
-                st["hypothesis_constants_ok"] += 1
-            else:
+            rows.append((c, [x.strip() == "true" for x in l.split(";")]))
+    # which of the two PROVED rules does the code follow on ALL instances?  RCur = the code as read for this
+    # model; RFix = proposed_fixes/constants_init_reassign.diff (both have their theorem in props/C02_Constants.v)
+    def follows(off):
+        return all(bl[off] or not bl[off + 2] for _, bl in rows)
+    rule, off = ("RCur", 0) if follows(0) or not follows(3) else ("RFix", 3)
+    st["rule_followed_by_the_code"] = rule if follows(off) else "neither (violations below are against RCur)"
+    for c, bl6 in rows:
+        bl = bl6[off:off + 3]
+        st["instances"] += 1
+        if not bl[2]:
+            # a default variable is itself a folded constant: Polar's output is not a flat program of the model
+            st["outside_model_default_substituted"] = st.get("outside_model_default_substituted", 0) + 1
+            if not bl[1]:
                 st["hypothesis_false"] += 1
-                st.setdefault("hypothesis_false_programs", []).append(c["text"])
-            if bl[0]:
-                st["model_equals_polar"] += 1
-                ctx.coverage["discharged"] += 1
-            else:
-                okm, om = lib.coq_run(ctx, "pconst_show", HEADER + f"Eval vm_compute in (constants {c['fin']}).\n", timeout=120)
-                ctx.violation(f"pass-model:ConstantsTransformer:{c['text']}",
-                              {"program_text": c["text"], "options": c["opts"], "correspondence": "PassConstants.constants vs ConstantsTransformer.execute",
-                               "polar_input": c["fin"], "polar_output": c["fout"], "model_output": om[-4000:] if okm else None,
-                               "theorem": "props/C02_Constants.v: C02_constants_preserves is about the model, which no longer describes the code"},
-                              "the model of ConstantsTransformer (PassConstants.constants) and the real pass produce different programs for\n" + c["text"],
-                              no_input=True)
-    print(f"  [pass ConstantsTransformer] instances={st['instances']} model==polar={st['model_equals_polar']} "
+            continue
+        ctx.coverage["obligations"] += 1
+        ctx.count({"pass": "ConstantsTransformer", "t": c["text"]}, nontrivial=c["folds"])
+        if c["folds"]:
+            st["something_folded"] += 1
+        if bl[1]:
+            st["hypothesis_constants_ok"] += 1
+        else:
+            st["hypothesis_false"] += 1
+            st.setdefault("hypothesis_false_programs", []).append(c["text"])
+        if bl[0]:
+            st["model_equals_polar"] += 1
+            ctx.coverage["discharged"] += 1
+        else:
+            okm, om = lib.coq_run(ctx, "pconst_show", HEADER + f"Eval vm_compute in (constants_gen {rule} {c['fin']}).\n", timeout=120)
+            ctx.violation(f"pass-model:ConstantsTransformer:{c['text']}",
+                          {"program_text": c["text"], "options": c["opts"], "rule": rule,
+                           "correspondence": f"PassConstants.constants_gen {rule} vs ConstantsTransformer.execute",
+                           "polar_input": c["fin"], "polar_output": c["fout"], "model_output": om[-4000:] if okm else None,
+                           "theorem": "props/C02_Constants.v: C02_constants_preserves is about the model, which no longer describes the code"},
+                          "the model of ConstantsTransformer (PassConstants.constants) and the real pass produce different programs for\n" + c["text"],
+                          no_input=True)
+    print(f"  [pass ConstantsTransformer] rule={st['rule_followed_by_the_code']} instances={st['instances']} model==polar={st['model_equals_polar']} "
           f"constants_ok={st['hypothesis_constants_ok']} folded_something={st['something_folded']} not_modelled={st['not_modelled']} "
           f"wall={time.time() - t0:.1f}s", flush=True)
     st["witnesses_outside_hypothesis"] = run_witnesses(ctx)
